@@ -820,7 +820,8 @@ static int ec_substitute(char *loc, char *cmd, char *arg, char *txt)
 		char *ln = lbuf_get(xb, i);
 		char *ln0 = ln;
 		struct sbuf *r = NULL;
-		while (rstr_find(re, ln, LEN(offs) / 2, offs, ln > ln0 ? RE_NOTBOL : 0) >= 0) {
+		while (rstr_find(re, ln, LEN(offs) / 2, offs, ln == ln0 ? 0 : RE_NOTBOL |
+				(uc_kind(uc_beg(ln0, ln - 1)) == 1 ? RE_WORDBEF : 0)) >= 0) {
 			if (!r)
 				r = sbuf_make();
 			sbuf_mem(r, ln, offs[0]);
